@@ -1,4 +1,22 @@
+"""C12 translator.
+
+1. `CoopConsts`: the default task budget.
+2. `ConduitSrc`: the bodies of `channel/mod.rs` (Conduit::{close_channel, wake, read, write, poll_read, poll_write,
+   poll_flush, poll_shutdown}, the coop wrappers of ByteReader / ByteWriter and both Drop impls) are parsed into their
+   statement structure (sequence, if / else-if / else chains, if-let, early return, tail expressions) and emitted as
+   terms of the small statement language of `Model/ConduitProg.lean`.  The STRUCTURE (order of tests, nesting, which
+   branch does what, where a function returns, where the lock is taken, which helper is called where) comes from the
+   source; each primitive statement / condition is recognised by its exact (white-space normalised) text through the
+   tables below and anything not in the tables is an ExtractError (= broken correspondence), never a default.
+   `Proofs/ConduitProg.lean` proves that executing the generated programs IS the hand-written model `Model/Conduit.lean`
+   the C12 theorems are about (for every state and argument), so a change of the source that changes the decision
+   structure breaks a proof obligation.
+"""
+import re
 from extract import src, one, HEADER, ExtractError
+
+CHANNEL = "swimos_utilities/swimos_byte_channel/src/channel/mod.rs"
+
 
 def coop_consts():
     t = src("swimos_utilities/swimos_byte_channel/src/coop/mod.rs")
@@ -8,4 +26,298 @@ def coop_consts():
             f"def defaultStartBudget : Nat := {int(n)}\n"
             "end SwimVerif.Generated\n")
 
-EXTRACTORS = {"CoopConsts": coop_consts}
+
+# ---------------------------------------------------------------- a very small Rust block parser
+
+def strip_comments(t):
+    t = re.sub(r"//[^\n]*", "", t)
+    t = re.sub(r"/\*.*?\*/", "", t, flags=re.S)
+    return t
+
+
+def norm(s):
+    return re.sub(r"\s+", " ", s).strip()
+
+
+def balanced(t, i):
+    """t[i] == '{' -> index just after the matching '}'"""
+    assert t[i] == "{"
+    d = 0
+    for j in range(i, len(t)):
+        if t[j] == "{":
+            d += 1
+        elif t[j] == "}":
+            d -= 1
+            if d == 0:
+                return j + 1
+    raise ExtractError("unbalanced braces")
+
+
+def impl_block(t, header_re, what, nth=0, count=1):
+    ms = [m for m in re.finditer(header_re, t)]
+    if len(ms) != count:
+        raise ExtractError(f"{what}: expected {count} impl block(s) /{header_re}/, found {len(ms)}")
+    m = ms[nth]
+    i = t.index("{", m.end() - 1)
+    return t[i + 1:balanced(t, i) - 1]
+
+
+def fn_body(block, name, sig_re, what):
+    """body of `fn name` inside an impl block; the signature (normalised) must match sig_re exactly"""
+    ms = [m for m in re.finditer(r"\bfn\s+" + name + r"\b", block)]
+    if len(ms) != 1:
+        raise ExtractError(f"{what}: expected exactly one fn {name}, found {len(ms)}")
+    i = block.index("{", ms[0].end())
+    sig = norm(block[ms[0].start():i])
+    if not re.fullmatch(sig_re, sig):
+        raise ExtractError(f"{what}: signature of {name} changed: {sig!r}")
+    return block[i + 1:balanced(block, i) - 1]
+
+
+def parse_block(s, tail):
+    """-> list of ('stmt', text, is_tail) | ('if', cond, then_list, else_list, is_tail)"""
+    out, i, n = [], 0, len(s)
+    while True:
+        while i < n and s[i].isspace():
+            i += 1
+        if i >= n:
+            break
+        if re.match(r"if\b", s[i:]):
+            node, i = parse_if(s, i)
+            # is this `if` the last thing of the block?
+            rest = s[i:].strip()
+            node_tail = tail and rest == ""
+            out.append(fix_tail(node, node_tail))
+            continue
+        j, d = i, 0
+        while j < n:
+            c = s[j]
+            if c in "([{":
+                d += 1
+            elif c in ")]}":
+                d -= 1
+            elif c == ";" and d == 0:
+                break
+            j += 1
+        text = norm(s[i:j])
+        is_tail = tail and j >= n
+        if j >= n and not tail:
+            raise ExtractError(f"value expression {text!r} in a non-tail block")
+        out.append(("stmt", text, is_tail))
+        i = j + 1
+    return out
+
+
+def parse_if(s, i):
+    assert s[i:i + 2] == "if"
+    j = s.index("{", i)
+    cond = norm(s[i + 2:j])
+    e = balanced(s, j)
+    then_src = s[j + 1:e - 1]
+    k = e
+    while k < len(s) and s[k].isspace():
+        k += 1
+    else_src, else_if = None, None
+    if re.match(r"else\b", s[k:]):
+        k += 4
+        while s[k].isspace():
+            k += 1
+        if re.match(r"if\b", s[k:]):
+            else_if, k = parse_if(s, k)
+        elif s[k] == "{":
+            e2 = balanced(s, k)
+            else_src = s[k + 1:e2 - 1]
+            k = e2
+        else:
+            raise ExtractError("malformed else")
+    return ("rawif", cond, then_src, else_src, else_if), k
+
+
+def fix_tail(node, tail):
+    _, cond, then_src, else_src, else_if = node
+    then_l = parse_block(then_src, tail)
+    if else_if is not None:
+        else_l = [fix_tail(else_if, tail)]
+    elif else_src is not None:
+        else_l = parse_block(else_src, tail)
+    else:
+        else_l = []
+    return ("if", cond, then_l, else_l, tail)
+
+
+# ---------------------------------------------------------------- tables: exact texts -> the statement language
+
+CONDS = {
+    "self.data.has_remaining()": ".hasData",
+    "count > 0": ".countPos",
+    "self.closed": ".closed",
+    "buf.is_empty()": ".bufEmpty",
+    "available == 0": ".availZero",
+    "let Some(waker) = self.waker.take()": ".takeWaker",
+}
+
+RETS = {
+    "Poll::Ready(Ok(()))": ".okUnit",
+    "Poll::Pending": ".pending",
+    "Poll::Ready(Err(ErrorKind::BrokenPipe.into()))": ".err",
+    "Poll::Ready(Ok(0))": ".okZero",
+    "Poll::Ready(Ok(len))": ".okLen",
+}
+
+ATOMS = {
+    "let count = self.data.remaining().min(buf.remaining())": ".letCount",
+    "self.waker = Some(cx.waker().clone())": ".setWaker",
+    "let available = self.capacity - self.data.len()": ".letAvail",
+    "self.closed = true": ".setClosed",
+    "waker.wake()": ".fireWaker",
+    "buf.put_slice(&self.data[..count])": ".putSlice",
+    "self.data.advance(count)": ".advance",
+    "let len = buf.len().min(avail)": ".letLen",
+    "self.data.extend_from_slice(&buf[..len])": ".extend",
+    "ready!(super::coop::consume_budget(cx))": ".budgetGate",
+    "let inner = &mut *(self.inner.lock())": ".lock",
+    "let guard = &mut *(self.inner.lock())": ".lock",
+}
+
+# calls that are inlined: text -> name of the callee's translated body
+CALLS = {
+    "self.read(buf, count)": "read",
+    "let len = self.write(buf, available)": "write",
+    "self.close_channel()": "close_channel",
+    "inner.close_channel()": "close_channel",
+    "guard.close_channel()": "close_channel",
+    "self.wake()": "wake",
+    "Pin::new(inner).poll_flush(cx)": "poll_flush",
+    "Pin::new(inner).poll_shutdown(cx)": "poll_shutdown",
+}
+TRACKED = {
+    "super::coop::track_progress(Pin::new(inner).poll_read(cx, buf))": "poll_read",
+    "super::coop::track_progress(Pin::new(inner).poll_write(cx, buf))": "poll_write",
+}
+
+
+def seq(items):
+    if not items:
+        return ".skip"
+    if len(items) == 1:
+        return items[0]
+    return f"(.seq {items[0]} {seq(items[1:])})"
+
+
+def emit(nodes, bodies, fn):
+    items = []
+    for nd in nodes:
+        if nd[0] == "if":
+            _, cond, then_l, else_l, _tail = nd
+            if cond not in CONDS:
+                raise ExtractError(f"{fn}: unknown condition {cond!r}")
+            items.append(f"(.ite {CONDS[cond]} {emit(then_l, bodies, fn)} {emit(else_l, bodies, fn)})")
+            continue
+        _, text, is_tail = nd
+        if text.startswith("debug_assert!("):
+            continue
+        if text.startswith("return "):
+            r = text[len("return "):]
+            if r not in RETS:
+                raise ExtractError(f"{fn}: unknown return value {r!r}")
+            items.append(f"(.ret {RETS[r]})")
+        elif text in RETS:
+            if not is_tail:
+                raise ExtractError(f"{fn}: {text!r} is not in tail position")
+            items.append(f"(.ret {RETS[text]})")
+        elif text in ATOMS:
+            items.append(ATOMS[text])
+        elif text in CALLS:
+            callee = CALLS[text]
+            if callee not in bodies:
+                raise ExtractError(f"{fn}: call of {callee} before its translation")
+            # a call in tail position of a poll function returns the callee's value: the callee's `ret` stands;
+            # a call in statement position of a unit function: the callee has no `ret`
+            items.append(bodies[callee])
+        elif text in TRACKED:
+            if not is_tail:
+                raise ExtractError(f"{fn}: track_progress is not in tail position")
+            items.append(f"(.track {bodies[TRACKED[text]]})")
+        elif text == "len" and fn == "write" and is_tail:
+            continue                       # `write` returns the local `len` (bound by letLen); callers read it
+        else:
+            raise ExtractError(f"{fn}: unknown statement {text!r}")
+    return seq(items)
+
+
+POLL_SIG_R = (r"fn poll_read\( (mut )?self: Pin<&mut Self>, cx: &mut Context<'_>, buf: &mut ReadBuf<'_>, \) "
+              r"-> Poll<IoResult<\(\)>>")
+POLL_SIG_W = (r"fn poll_write\( (mut )?self: Pin<&mut Self>, cx: &mut Context<'_>, buf: &\[u8\], \) "
+              r"-> Poll<(IoResult<usize>|Result<usize, Error>)>")
+POLL_SIG_F = r"fn poll_flush\((mut )?self: Pin<&mut Self>, (_|cx): &mut Context<'_>\) -> Poll<(IoResult<\(\)>|Result<\(\), Error>)>"
+POLL_SIG_S = r"fn poll_shutdown\((mut )?self: Pin<&mut Self>, (_|cx): &mut Context<'_>\) -> Poll<(IoResult<\(\)>|Result<\(\), Error>)>"
+
+
+def conduit_src():
+    t = strip_comments(src(CHANNEL))
+    t = re.sub(r"#\[inline\]", "", t)
+    bodies = {}
+
+    def tr(block, name, sig, what, tail):
+        body = fn_body(block, name, sig, what)
+        bodies[name] = emit(parse_block(body, tail), bodies, name)
+        return bodies[name]
+
+    inh = impl_block(t, r"\bimpl Conduit \{", "impl Conduit")
+    tr(inh, "wake", r"fn wake\(&mut self\)", "Conduit", False)
+    tr(inh, "close_channel", r"fn close_channel\(&mut self\)", "Conduit", False)
+    tr(inh, "read", r"fn read\(&mut self, buf: &mut ReadBuf<'_>, count: usize\)", "Conduit", False)
+    tr(inh, "write", r"fn write\(&mut self, buf: &\[u8\], avail: usize\) -> usize", "Conduit", True)
+    rd = impl_block(t, r"\bimpl AsyncRead for Conduit \{", "AsyncRead for Conduit")
+    tr(rd, "poll_read", POLL_SIG_R, "Conduit", True)
+    wr = impl_block(t, r"\bimpl AsyncWrite for Conduit \{", "AsyncWrite for Conduit")
+    tr(wr, "poll_write", POLL_SIG_W, "Conduit", True)
+    tr(wr, "poll_flush", POLL_SIG_F, "Conduit", True)
+    tr(wr, "poll_shutdown", POLL_SIG_S, "Conduit", True)
+    conduit = dict(bodies)
+
+    # the halves: the `coop` variants (feature on by default; the harness and the servers build with it)
+    def coop_impl(trait, ty):
+        ms = list(re.finditer(r'#\[cfg\(feature = "coop"\)\]\s*impl ' + trait + r" for " + ty + r" \{", t))
+        if len(ms) != 1:
+            raise ExtractError(f"coop impl {trait} for {ty}: found {len(ms)}")
+        i = t.index("{", ms[0].end() - 1)
+        return t[i + 1:balanced(t, i) - 1]
+
+    out = {}
+
+    def half(block, name, sig, key):
+        body = fn_body(block, name, sig, key)
+        out[key] = emit(parse_block(body, True), conduit, key)
+
+    rb = coop_impl("AsyncRead", "ByteReader")
+    half(rb, "poll_read", POLL_SIG_R, "reader_poll_read")
+    wb = coop_impl("AsyncWrite", "ByteWriter")
+    half(wb, "poll_write", POLL_SIG_W, "writer_poll_write")
+    half(wb, "poll_flush", POLL_SIG_F, "writer_poll_flush")
+    half(wb, "poll_shutdown", POLL_SIG_S, "writer_poll_shutdown")
+    for ty, key in (("ByteReader", "reader_drop"), ("ByteWriter", "writer_drop")):
+        blk = impl_block(t, r"\bimpl Drop for " + ty + r" \{", "Drop for " + ty)
+        body = fn_body(blk, "drop", r"fn drop\(&mut self\)", key)
+        out[key] = emit(parse_block(body, False), conduit, key)
+
+    # no other code may touch the shared state: the only `.lock()` sites are the seven translated above plus is_closed
+    locks = len(re.findall(r"\.lock\(\)", t))
+    n_noncoop = len(re.findall(r'#\[cfg\(not\(feature = "coop"\)\)\]', t))
+    expected = 6 + 1 + 4          # coop halves (4) + drops (2) + is_closed + the four non-coop twins
+    if locks != expected or n_noncoop != 2:
+        raise ExtractError(f"lock sites: expected {expected} `.lock()` and 2 non-coop impls, found {locks} / {n_noncoop}")
+    one(r"pub fn is_closed\(&self\) -> bool \{\s*self\.inner\.lock\(\)\.closed\s*\}", t, "ByteWriter::is_closed")
+
+    lines = [HEADER, "import SwimVerif.Model.ConduitProg", "namespace SwimVerif.Generated.ConduitSrc",
+             "open SwimVerif.ConduitProg", ""]
+    for k in ("poll_read", "poll_write", "poll_flush", "poll_shutdown"):
+        lines.append(f"/-- `Conduit::{k}` with `read` / `write` / `wake` / `close_channel` inlined -/")
+        lines.append(f"def conduit_{k} : Stmt :=\n  {conduit[k]}")
+    for k, v in out.items():
+        lines.append(f"def {k} : Stmt :=\n  {v}")
+    lines.append("end SwimVerif.Generated.ConduitSrc\n")
+    return "\n".join(lines)
+
+
+EXTRACTORS = {"CoopConsts": coop_consts, "ConduitSrc": conduit_src}
